@@ -163,6 +163,28 @@ pub fn byte_families(level: u32, seed: u64) -> Vec<Family> {
         "lcg_a",
         lcg_set(seed ^ 0x1234, 3000, 6, &[0, 1, 2, 0x61, 0x62, 0xfe, 0xff]),
     ));
+    // a grid of pseudo-random dictionaries (deterministic LCG): layout defects of the double array
+    // typically show on a few percent of such sets, so several shapes x sizes are explored
+    let letters: Vec<u8> = (b'a'..=b'z').collect();
+    let alphas: [(&str, Vec<u8>); 4] = [
+        ("0123", vec![0, 1, 2, 3]),
+        ("00_01_02_ff_a", vec![0, 1, 2, 0xff, b'a']),
+        ("a-z", letters),
+        ("all256", all.clone()),
+    ];
+    for (ai, (an, al)) in alphas.iter().enumerate() {
+        for (si, &(n, maxlen)) in [(200usize, 4usize), (1000, 4), (600, 8)].iter().enumerate() {
+            if level == 0 && si == 2 && ai >= 2 {
+                continue;
+            }
+            for rep in 0..(if level >= 1 { 3u64 } else { 1 }) {
+                v.push(fam(
+                    &format!("lcg_grid_{an}_n{n}_len{maxlen}_r{rep}"),
+                    lcg_set(seed ^ (0x5151 + 97 * ai as u64 + 13 * si as u64 + 1009 * rep), n, maxlen, al),
+                ));
+            }
+        }
+    }
     if level >= 1 {
         v.push(fam("prod_0..64x0..256", product(&all[..64], &all)));
         v.push(fam("lcg_b", lcg_set(seed ^ 0x9876, 6000, 5, &all)));
@@ -281,6 +303,27 @@ pub fn char_families(level: u32, seed: u64) -> Vec<Family> {
             .map(|p| p.iter().map(|&i| al6[i as usize]).collect::<String>().into_bytes())
             .collect(),
     ));
+    // pseudo-random character dictionaries over alphabets of 5, 26 and 300 characters
+    let calphas: [(&str, Vec<char>); 3] = [
+        ("5", vec!['a', 'b', '\u{e9}', '\u{4e16}', '\u{1f600}']),
+        ("26", chars_from(0x3041, 26)),
+        ("300", chars_from(0x4e00, 300)),
+    ];
+    for (ai, (an, al)) in calphas.iter().enumerate() {
+        for (si, &(n, maxlen)) in [(200usize, 5usize), (800, 4)].iter().enumerate() {
+            for rep in 0..(if level >= 1 { 3u64 } else { 1 }) {
+                let idx: Vec<u8> = (0..al.len().min(250) as u8).collect();
+                let raw = lcg_set(seed ^ (0x7171 + 31 * ai as u64 + 7 * si as u64 + 733 * rep), n, maxlen, &idx);
+                let pats: Vec<Vec<u8>> = raw
+                    .iter()
+                    .map(|p| p.iter().map(|&i| al[(i as usize * 7 + p.len()) % al.len()]).collect::<String>().into_bytes())
+                    .collect::<std::collections::BTreeSet<_>>()
+                    .into_iter()
+                    .collect();
+                v.push(fam(&format!("chars_lcg_grid_{an}_n{n}_len{maxlen}_r{rep}"), pats));
+            }
+        }
+    }
     if level >= 1 {
         v.push(fam("chars2_len<=9", strings_over(&['\u{0}', '\u{10ffff}'], 9)));
         v.push(fam("chars3_len<=7", strings_over(&['x', 'y', '\u{7ff}'], 7)));
